@@ -127,11 +127,13 @@ def aliased_refs(check, ctx, case, upto=None):
     h = case['hist']
     cmds = h['commands'] if upto is None else h['commands'][:upto + 1]
     levels = [[]]
-    defs = []
+    deflevels = [[]]
     pairs = []
     seen = set()
+    defs_of = {}     # occurrence text -> definitions in scope when it was asserted
 
     def add(t):
+        defs_of.setdefault(t, tuple(d for lv in deflevels for d in lv))
         for lv in levels:
             for u in lv:
                 if (u, t) not in seen:
@@ -142,25 +144,34 @@ def aliased_refs(check, ctx, case, upto=None):
         if c.get('fault'):
             continue
         if c['k'] == 'define-fun':
-            defs.append((c['name'], c['text']))
+            deflevels[-1].append((c['name'], c['text']))
         elif c['k'] == 'push':
             for _ in range(c['n']):
                 levels.append([])
+                deflevels.append([])
         elif c['k'] == 'pop':
             if c['n'] < len(levels):
                 del levels[len(levels) - c['n']:]
+                del deflevels[len(deflevels) - c['n']:]
         if c['k'] != 'assert':
             continue
         add(c['ref'])
         for (name, ref, is_bool, top) in c.get('names', []):
             if not top:
                 add(ref)
-    # definitions in scope at `upto` (a popped define-fun may have been re-defined: the unscoped list would not even parse)
+    # definitions in scope at `upto` (for the caller's own queries)
     snap = hist.snapshots(h['commands'])[upto] if (upto is not None and upto < len(h['commands'])) else None
-    prelude = prelude_from_decls(h['decls'], snap['defs'] if snap else defs)
+    prelude = prelude_from_decls(h['decls'], snap['defs'] if snap else [d for lv in deflevels for d in lv])
+
+    def pair_prelude(u, t):
+        # both occurrences are read with the definitions that were in scope when they were asserted; a name that was popped and
+        # re-defined differently in between makes the pair incomparable
+        ds = {}
+        for (n, txt) in defs_of.get(u, ()) + defs_of.get(t, ()):
+            if ds.setdefault(n, txt) != txt:
+                return None
+        return prelude_from_decls(h['decls'], list(ds.items()))
     out = set()
-    # all pairs (terms over different symbol sets can still simplify to the same term, e.g. (=> (= u u) b) and b; two valid
-    # or two unsatisfiable terms both simplify to the same constant)
     for (u, t) in pairs:          # identical text: no query needed, no cap
         if u == t:
             out.update((u, t))
@@ -173,8 +184,15 @@ def aliased_refs(check, ctx, case, upto=None):
         for x in (u, t):
             if x not in sy:
                 sy[x] = syms(x)
-    # equivalent formulas usually mention the same symbols: those pairs are asked first (the budget matters in long histories)
-    pairs = sorted(pairs, key=lambda p: 0 if sy[p[0]] == sy[p[1]] else (1 if (sy[p[0]] <= sy[p[1]] or sy[p[1]] <= sy[p[0]]) else 2))
+    # equivalent formulas usually mention the same symbols: those pairs are asked first (the budget matters in long histories);
+    # a macro hides its symbols, so pairs with a macro on either side come right after
+    def rank(p):
+        if sy[p[0]] == sy[p[1]]:
+            return 0
+        if defs_of.get(p[0]) or defs_of.get(p[1]):
+            return 1
+        return 2 if (sy[p[0]] <= sy[p[1]] or sy[p[1]] <= sy[p[0]]) else 3
+    pairs = sorted(pairs, key=rank)
     budget = 1500
     for (u, t) in pairs:
         if u == t or (u in out and t in out):
@@ -182,8 +200,11 @@ def aliased_refs(check, ctx, case, upto=None):
         budget -= 1
         if budget < 0:
             break
+        pl = pair_prelude(u, t)
+        if pl is None:
+            continue
         try:
-            if ctx.refs.truth(prelude, ['(not (= %s %s))' % (u, t)]) == 'unsat':
+            if ctx.refs.truth(pl, ['(not (= %s %s))' % (u, t)]) == 'unsat':
                 out.update((u, t))
         except RefError:
             continue
@@ -431,7 +452,11 @@ class C06(ArtifactCheck):
     def signature(self, case, v, ctx=None):
         # a top-level named assertion containing a term-level ite is rewritten by the ITE handler before it is stored,
         # while its name stays attached to the term as written
-        named_ite = any(c['k'] == 'assert' and not c.get('fault') and '(ite ' in c['ref'] and any(n[3] for n in c.get('names', []))
+        ite_macros = {c['name'] for c in case['hist']['commands'][:v['index']] if c['k'] == 'define-fun' and '(ite ' in c['text']}
+
+        def has_ite(ref):
+            return '(ite ' in ref or any(w in ite_macros for w in ref.replace('(', ' ').replace(')', ' ').split())
+        named_ite = any(c['k'] == 'assert' and not c.get('fault') and has_ite(c['ref']) and any(n[3] for n in c.get('names', []))
                         for c in case['hist']['commands'][:v['index']])
         # difference logic with constants near the machine-word range: the fresh solver used by the minimisation overflows and
         # answers unknown, and an element whose removal could not be decided is kept
